@@ -13,6 +13,7 @@ from __future__ import annotations
 import datetime as dt_
 import zoneinfo
 
+from .. import worker
 from .. import core, obs, seeds
 from ..ref import calref, tzref
 
@@ -153,9 +154,10 @@ def run_shard(shard):
                 acc.c["states"] += len(ps)
                 for ia in ps:
                     for ib in ps:
-                        check_pair(acc, pendulum, z, ia, z, ib, clone_b=False, native=(j % 3 == 0))
-                        if j % 2 == 0:
-                            check_pair(acc, pendulum, z, ia, z, ib, clone_b=True, native=False)
+                        with worker.guarded(acc, "sub", {"kind": "pair", "za": z, "ia": ia, "zb": z, "ib": ib, "clone_b": False}):
+                            check_pair(acc, pendulum, z, ia, z, ib, clone_b=False, native=(j % 3 == 0))
+                            if j % 2 == 0:
+                                check_pair(acc, pendulum, z, ia, z, ib, clone_b=True, native=False)
                         acc.c["nontrivial"] += 1
             if trs:
                 acc.sample({"zone": z, "pair": [obs.iso(seeds.probe_instants(*trs[0])[0]),
@@ -166,7 +168,8 @@ def run_shard(shard):
         for za, ia in shard["left"]:
             acc.c["states"] += 1
             for zb, ib in S:
-                check_pair(acc, pendulum, za, ia, zb, ib, clone_b=False, native=((ia + ib) % 5 == 0))
+                with worker.guarded(acc, "sub", {"kind": "pair", "za": za, "ia": ia, "zb": zb, "ib": ib, "clone_b": False}):
+                    check_pair(acc, pendulum, za, ia, zb, ib, clone_b=False, native=((ia + ib) % 5 == 0))
                 acc.c["nontrivial"] += 1
     elif k == "dates":
         ds = shard["days"]
